@@ -5,7 +5,7 @@
 //        exactly the variable handed in; it is append-only and touches no other variable; the set of known
 //        variables never changes in `infer`.
 //   C01  the `unwrap()`s of infer / inferences / value_unchecked cannot fail when the variables are known.
-//   C11/C14  register_internal (tail): one FRESH variable per registration, an already registered stable-typed
+//   C14  register_internal (tail): one FRESH variable per registration, an already registered stable-typed
 //        value gets the SAME boxed value (hence the same variable) back.
 // Abstract view: `knows(tv)` (key of `inferences`), `judgements(tv)` (the Set<TypeExpression> kept for it),
 // `has_value(tv)` / `value_of(tv)` (map `expressions`), `stable_of` (map `stable_types`).
@@ -222,7 +222,7 @@ pub closed spec fn same_maps(a: &TypeCheckerState, b: &TypeCheckerState) -> bool
 }
 /// the value was registered before as a stable-typed one
 pub open spec fn shared(s: &TypeCheckerState, value: RuntimeBoxedVal) -> bool { stable_typed(value) && s.stable().contains_key(value) }
-/// C11 / C14: what registering `value` does, `out` being the boxed value handed back
+/// C14: what registering `value` does, `out` being the boxed value handed back
 pub open spec fn reg_post(pre: &TypeCheckerState, post: &TypeCheckerState, value: RuntimeBoxedVal, out: TCBoxedVal) -> bool {
     &&& post.wf()
     &&& grows(pre, post)
@@ -412,7 +412,7 @@ let variable = variable;
     #[verifier::external_body]
     fn is_stable_typed(value: &RuntimeBoxedVal) -> (r: bool) ensures r == stable_typed(*value) { unimplemented!() }
 
-//@extract file=src/tc/state/mod.rs path="impl TypeCheckerState|fn register_internal" props=C11,C14,C01
+//@extract file=src/tc/state/mod.rs path="impl TypeCheckerState|fn register_internal" props=C14,C01
 //@ret out
 //@rw R-OPAQUE
 //@old
@@ -435,32 +435,32 @@ if !self.inferences.contains_key(&$1) { self.inferences.insert($1, $2); }
         ensures
             final(self).wf(),
             grows(old(self), final(self)),                                                            //@ob C14.tc_state.register_internal.existing_variables_keep_sets_and_values
-            shared(old(self), value) ==> out == old(self).stable()[value] && same_maps(old(self), final(self)),   //@ob C11.tc_state.register_internal.stable_value_gets_the_same_boxed_value
-            !shared(old(self), value) ==> !old(self).knows(out.tv()) && !old(self).has_value(out.tv()),   //@ob C11.tc_state.register_internal.fresh_variable
+            shared(old(self), value) ==> out == old(self).stable()[value] && same_maps(old(self), final(self)),   //@ob C14.tc_state.register_internal.stable_value_gets_the_same_boxed_value
+            !shared(old(self), value) ==> !old(self).knows(out.tv()) && !old(self).has_value(out.tv()),   //@ob C14.tc_state.register_internal.fresh_variable
             final(self).knows(out.tv()) && final(self).has_value(out.tv()),                           //@ob C14.tc_state.register_internal.variable_becomes_known
             !shared(old(self), value) ==> final(self).judgements(out.tv()) =~= Set::<TypeExpression>::empty(),   //@ob C14.tc_state.register_internal.starts_with_no_judgement
-            !shared(old(self), value) ==> final(self).value_of(out.tv()) == out,                      //@ob C11.tc_state.register_internal.variable_maps_to_the_value
-            stable_typed(value) ==> final(self).stable().contains_key(value) && final(self).stable()[value] == out,   //@ob C11.tc_state.register_internal.stable_value_is_remembered
-            !stable_typed(value) ==> final(self).stable().contains_key(value) == old(self).stable().contains_key(value),   //@ob C11.tc_state.register_internal.only_stable_values_are_shared
+            !shared(old(self), value) ==> final(self).value_of(out.tv()) == out,                      //@ob C14.tc_state.register_internal.variable_maps_to_the_value
+            stable_typed(value) ==> final(self).stable().contains_key(value) && final(self).stable()[value] == out,   //@ob C14.tc_state.register_internal.stable_value_is_remembered
+            !stable_typed(value) ==> final(self).stable().contains_key(value) == old(self).stable().contains_key(value),   //@ob C14.tc_state.register_internal.only_stable_values_are_shared
             reg_post(old(self), final(self), value, out),
 //@proof entry
         broadcast use vstd::std_specs::hash::group_hash_axioms;
         broadcast use group_tc_keys;
 //@end
 
-//@extract file=src/tc/state/mod.rs path="impl TypeCheckerState|fn register" props=C11,C14,C01
+//@extract file=src/tc/state/mod.rs path="impl TypeCheckerState|fn register" props=C14,C01
 //@ret r
 //@spec
         requires
             old(self).wf(),
         ensures
-            exists|out: TCBoxedVal| out.tv() == r && #[trigger] reg_post(old(self), final(self), value, out),   //@ob C11.tc_state.register.returns_the_registered_values_variable
+            exists|out: TCBoxedVal| out.tv() == r && #[trigger] reg_post(old(self), final(self), value, out),   //@ob C14.tc_state.register.returns_the_registered_values_variable
             shared(old(self), value) ==> r == old(self).stable()[value].tv(),                         //@ob C14.tc_state.register.one_variable_per_stable_value
-            !shared(old(self), value) ==> !old(self).knows(r),                                        //@ob C11.tc_state.register.fresh_variable
+            !shared(old(self), value) ==> !old(self).knows(r),                                        //@ob C14.tc_state.register.fresh_variable
             final(self).knows(r),                                                                     //@ob C01.tc_state.register.result_is_known
 //@end
 
-//@extract file=src/tc/state/mod.rs path="impl TypeCheckerState|fn allocate_ty_var" props=C14,C11
+//@extract file=src/tc/state/mod.rs path="impl TypeCheckerState|fn allocate_ty_var" props=C14
 //@ret r
 //@rw R-SIG
 //@old
@@ -479,14 +479,14 @@ self.inferences.entry($1).or_insert($2);
 if !self.inferences.contains_key(&$1) { self.inferences.insert($1, $2); }
 //@spec
         ensures
-            old(self).wf() ==> !old(self).knows(r) && !old(self).has_value(r),                        //@ob C11.tc_state.allocate_ty_var.fresh_variable
+            old(self).wf() ==> !old(self).knows(r) && !old(self).has_value(r),                        //@ob C14.tc_state.allocate_ty_var.fresh_variable
             final(self).knows(r) && final(self).has_value(r),                                         //@ob C14.tc_state.allocate_ty_var.becomes_known
             final(self).judgements(r) =~= (if old(self).knows(r) { old(self).judgements(r) } else { Set::<TypeExpression>::empty() }),   //@ob C14.tc_state.allocate_ty_var.starts_with_no_judgement
             forall|tv: TypeVariable| tv != r ==> final(self).knows(tv) == old(self).knows(tv)
                 && final(self).has_value(tv) == old(self).has_value(tv),                              //@ob C14.tc_state.allocate_ty_var.only_one_variable_added
             forall|tv: TypeVariable| old(self).knows(tv) ==> final(self).inf_map()[tv] == old(self).inf_map()[tv],   //@ob C14.tc_state.allocate_ty_var.existing_judgements_kept
             forall|tv: TypeVariable| old(self).has_value(tv) ==> final(self).value_of(tv) == old(self).value_of(tv),   //@ob C14.tc_state.allocate_ty_var.existing_values_kept
-            !old(self).has_value(r) ==> final(self).value_of(r).tv() == r,                            //@ob C11.tc_state.allocate_ty_var.value_carries_its_variable
+            !old(self).has_value(r) ==> final(self).value_of(r).tv() == r,                            //@ob C14.tc_state.allocate_ty_var.value_carries_its_variable
             final(self).stable() == old(self).stable(),
             old(self).wf() ==> final(self).wf(),
 //@proof entry
